@@ -97,6 +97,17 @@ def check_kw(case, stats):
                 line, d, (s["keyword"], s["keywordType"], s["text"]), (want_kw, want_type, want_text)))
         if r[1]["feature"]["language"] != d:
             raise Violation(case, "feature reports language %r, dialect in force is %r" % (r[1]["feature"]["language"], d))
+        if lay == 0 and " " in kw.strip():
+            # a description line that begins with the first word of this multi-word keyword (without being a step), then the step itself
+            first = kw.split(" ")[0]
+            dline = first + " zzz, not a step"
+            if not any(dline.startswith(k2) for k2, _ in step_keywords(d)):
+                text = "\n".join(pre + [F + ":", " " + SC + ":", "  " + dline, "  " + first, ind + kw + "text"]) + "\n"
+                r = gh.parse(text, dflt)
+                sc_ = r[1]["feature"]["children"][0]["scenario"] if r[0] == "ok" else None
+                if not sc_ or len(sc_["steps"]) != 1 or (sc_["steps"][0]["keyword"], sc_["steps"][0]["text"]) != (want_kw, "text") or sc_["description"] != "  " + dline + "\n  " + first:
+                    raise Violation(case, "step keyword %r of %s after description lines starting with its first word: %r\n%s" % (
+                        kw, d, r[1][:2] if r[0] != "ok" else (sc_["description"], [(x["keyword"], x["text"]) for x in sc_["steps"]]), text))
         if lay == 0:
             # the keyword alone (a step without text) as the very last line, with and without a final line break
             bk, bt = expected_step(d, kw)
